@@ -34,7 +34,7 @@ ASSUMPTIONS = ["leaves are pure logging calls: they do not rebind the variables 
                "hashing/iteration of containers is not an event (plain tuples/dicts as * and ** operands)"]
 
 # set to True after proposed_fixes/C20-minmax_first_arg_evaluated_last.diff is applied to /repo
-MINMAX_FIXED = os.environ.get("C20_MINMAX_FIXED", "0") == "1"
+MINMAX_FIXED = os.environ.get("C20_MINMAX_FIXED", "1") == "1"
 
 # --------------------------------------------------------------------------------------
 # logging runtime shared by the compiled module and the CPython oracle
@@ -741,9 +741,9 @@ def build_and_run(workdir, stmts, chunk=150, jobs=6, tag="c20m"):
 # --------------------------------------------------------------------------------------
 # the check
 # flags to flip after the corresponding proposed_fixes/C20-*.diff is applied to /repo
-INPLACE_FIXED = os.environ.get("C20_INPLACE_FIXED", "0") == "1"
-NOTFLIP_FIXED = os.environ.get("C20_NOTFLIP_FIXED", "0") == "1"
-BOOLOPDUP_FIXED = os.environ.get("C20_BOOLOPDUP_FIXED", "0") == "1"
+INPLACE_FIXED = os.environ.get("C20_INPLACE_FIXED", "1") == "1"
+NOTFLIP_FIXED = os.environ.get("C20_NOTFLIP_FIXED", "1") == "1"
+BOOLOPDUP_FIXED = os.environ.get("C20_BOOLOPDUP_FIXED", "1") == "1"
 FLAG_CLASSES = [  # (index in the model's flag vector, finding class)
     (0, "minmax_first_argument_evaluated_last"),
     (1, "method_lookup_after_arguments"),
